@@ -148,6 +148,7 @@ func runC08(w *fw.Worker) {
 			if w.Expired() {
 				return
 			}
+			w.Progress()
 			decided := 0
 			seam.SetOrderHook(func(k int, site string) []int {
 				decided++
